@@ -239,7 +239,7 @@ Reads(a) ==
 \* role "dup": every event (the subject too) is listed twice in the state sets, the auth events and the bodies;
 \* role "bare": the state sets hold nothing the checks need - create, power levels and members are reachable only
 \* through the auth events each event cites, some events omit one of them, and ONE checker judges them in turn
-ResolveDup == {"Resolve:new:dup", "Resolve:old:dup", "Resolve:direct:dup", "Resolve:topo_auth:dup", "Resolve:linearise:dup",
+ResolveDup == {"Resolve:backfill:dup", "Resolve:new:dup", "Resolve:old:dup", "Resolve:direct:dup", "Resolve:topo_auth:dup", "Resolve:linearise:dup",
                "Resolve:checkstate:dup", "Resolve:sendjoin:dup", "Resolve:load:dup"}
 ResolveBare == {"Resolve:new:bare", "Resolve:old:bare", "Resolve:direct:bare"}
 ResolveOps ==
@@ -248,12 +248,12 @@ ResolveOps ==
      "Resolve:direct:state", "Resolve:direct:auth", "Resolve:direct:both",
      "Resolve:topo_auth:all", "Resolve:topo_prev:all", "Resolve:topo_headered:all",
      "Resolve:linearise:state", "Resolve:linearise:auth", "Resolve:checkstate:state", "Resolve:checkstate:auth",
-     "Resolve:sendjoin:state", "Resolve:sendjoin:auth", "Resolve:load:all", "Resolve:authchain:all"}
+     "Resolve:sendjoin:state", "Resolve:sendjoin:auth", "Resolve:load:all", "Resolve:authchain:all", "Resolve:backfill:all"}
       \cup ResolveDup \cup ResolveBare
 ResolveWithError == {"Resolve:new:state", "Resolve:new:auth", "Resolve:new:both", "Resolve:old:state", "Resolve:old:auth",
                      "Resolve:old:both", "Resolve:checkstate:state", "Resolve:checkstate:auth", "Resolve:sendjoin:state",
                      "Resolve:sendjoin:auth", "Resolve:load:all", "Resolve:authchain:all",
-                     "Resolve:new:dup", "Resolve:old:dup", "Resolve:checkstate:dup", "Resolve:sendjoin:dup", "Resolve:load:dup",
+                     "Resolve:backfill:all", "Resolve:backfill:dup", "Resolve:new:dup", "Resolve:old:dup", "Resolve:checkstate:dup", "Resolve:sendjoin:dup", "Resolve:load:dup",
                      "Resolve:new:bare", "Resolve:old:bare"}
 \* the federation handlers and PerformInvite, driven with the remote event of the pipeline
 HandlerOps == {"Handle:Invite", "Handle:InviteV3", "Handle:SendJoin", "Handle:MakeJoin", "Handle:MakeLeave", "Perform:Invite"}
@@ -263,7 +263,7 @@ HeavyBase == {"VerifySignatures", "AuthCheck:event", "AuthCheck:provider", "AddT
 \* return nothing, every event is reported rejected.
 Envs == {"qnil", "qerr", "verr", "perr", "pnil", "rejall"}
 InEnv(op, e) == op \o "@" \o e
-EnvBase == {"VerifySignatures", "AuthCheck:event", "AuthCheck:provider", "AddToProvider", "Resolve:new:both", "Resolve:direct:both",
+EnvBase == {"Resolve:backfill:all", "VerifySignatures", "AuthCheck:event", "AuthCheck:provider", "AddToProvider", "Resolve:new:both", "Resolve:direct:both",
             "Resolve:checkstate:state", "Resolve:sendjoin:auth", "Resolve:load:all", "Resolve:authchain:all", "Resolve:new:bare"}
               \cup HandlerOps
 EnvOps == {InEnv(op, e) : op \in EnvBase, e \in Envs}
@@ -290,7 +290,7 @@ IdentOps == {"ParseIdentifier:NewRoomID", "ParseIdentifier:NewUserID", "ParseIde
 JsonOps == {"Canonicalise:CanonicalJSON", "Canonicalise:Enforced", "RedactJSON", "VerifyJSON", "SignJSON", "ListKeyIDs"}
 KeyOps == {"CheckKeys", "KeyRing"}
 HeaderOps == {"ParseAuthorization", "VerifyHTTPRequest"}
-BodyOps == {"Body:CheckStateResponse", "Body:SendJoin", "Body:Transaction", "Body:PerformJoin", "Body:LoadAndVerify",
+BodyOps == {"Body:CheckStateResponse", "Body:SendJoin", "Body:Transaction", "Body:PerformJoin", "Body:LoadAndVerify", "Body:Backfill",
             "Handle:InviteV3"}    \* the v3 invite handler takes the (looser) proto event of the request body
 \* the constructors of a typed event: the untrusted parser, and its siblings for bytes the untrusted parser accepted
 ParseOps == {"Parse:untrusted", "Parse:trusted", "Parse:headered"}
@@ -317,7 +317,8 @@ ParsedCallsWithError ==
       \cup {"VerifySignatures", "AddToProvider:NewAuthEvents", "AddToProvider:CreateContent", "AddToProvider:PowerLevelContent",
             "AddToProvider:JoinRuleContent", "AddToProvider:MemberContent", "AddToProvider:ThirdPartyInviteContent",
             "AddToProvider:AuthEventReferences", "AuthCheck:Allowed",
-            "Resolve:new", "Resolve:old", "Resolve:checkstate", "Resolve:sendjoin", "Resolve:load", "Resolve:authchain"}
+            "Resolve:new", "Resolve:old", "Resolve:checkstate", "Resolve:sendjoin", "Resolve:load", "Resolve:authchain",
+            "Resolve:backfill"}
 ParsedCallsNoError ==
     {Acc(a) : a \in Accessors \ AccessorsWithError} \cup {Hlp(h) : h \in Helpers \ HelpersWithError}
       \cup (Mutators \ MutatorsWithError)
